@@ -680,7 +680,7 @@ func runCLIWorker(args []string) int {
 	prop := args[0]
 	root := scratchDir()
 	defer os.RemoveAll(root)
-	maps := []Mapping{{B: 0, Scale: 1}, {B: 1600000000, Scale: 0.25}, {B: 2147480000, Scale: 1024}}
+	maps := []Mapping{{B: 0, Scale: 1}, {B: 1600000000, Scale: 0.25}, {B: 2147480000, Scale: 1024}, {B: 2300000000, Scale: 1}, {B: 4294900000, Scale: 0.25}}
 	sc := bufio.NewScanner(os.Stdin)
 	sc.Buffer(make([]byte, 1<<20), 1<<28)
 	w := bufio.NewWriter(os.Stdout)
